@@ -171,6 +171,92 @@ theorem nested_in_ic_scale (en : Enabled) (b ic ic' : Tri Rat) (r : Rat)
 example : keepCode ⟨true, true, false⟩ ⟨(1/2) * (1/2), (1/2) * (1/2), 0⟩ (3/8) = 2 ∧
     keepCode ⟨true, true, false⟩ ⟨1 * (1/2), 1 * (1/2), 0⟩ (3/8) = 1 := by decide +kernel
 
+/-- **nested_in_ic (catalogue).**  Raise the widths of the enabled tracers on every host (`h.w ≤ f h`, e.g. a
+larger `ic`).  Then (i) the hosts that carry a central stay selected — the selected rows of the first run are
+a sublist of the selected rows of the second, in the same order; (ii) fewer hosts are rejected and the three
+central catalogues together do not shrink; (iii) the LRG centrals (first slice of the chain) of the first run
+are, id by id and in order, among those of the second. -/
+theorem nested_in_ic_catalogue (cfg : Cfg) (aC : Tri Rat) (hosts : List Host) (f : Host → Widths)
+    (hle : ∀ x ∈ hosts, ∀ S, cfg.en.get S = true → x.w.get S ≤ (f x).get S) :
+    (hosts.filter (fun h => decide (keepCode cfg.en h.w h.r ≠ 0))).Sublist
+      (hosts.filter (fun h => decide (keepCode cfg.en (f h) h.r ≠ 0))) ∧
+    (genCent cfg aC (hosts.map fun x => { x with w := f x })).keep.count 0 ≤ (genCent cfg aC hosts).keep.count 0 ∧
+    ((genCent cfg aC hosts).gals .LRG).length + ((genCent cfg aC hosts).gals .ELG).length +
+        ((genCent cfg aC hosts).gals .QSO).length ≤
+      ((genCent cfg aC (hosts.map fun x => { x with w := f x })).gals .LRG).length +
+        ((genCent cfg aC (hosts.map fun x => { x with w := f x })).gals .ELG).length +
+        ((genCent cfg aC (hosts.map fun x => { x with w := f x })).gals .QSO).length ∧
+    (((genCent cfg aC hosts).gals .LRG).map (·.id)).Sublist
+      (((genCent cfg aC (hosts.map fun x => { x with w := f x })).gals .LRG).map (·.id)) := by
+  have hnest : ∀ x ∈ hosts, keepCode cfg.en x.w x.r ≠ 0 →
+      keepCode cfg.en (f x) x.r ≠ 0 ∧ keepCode cfg.en (f x) x.r ≤ keepCode cfg.en x.w x.r :=
+    fun x hx hs => nested_in_ic cfg.en x.w (f x) x.r (hle x hx) hs
+  have hcount : (genCent cfg aC (hosts.map fun x => { x with w := f x })).keep.count 0 ≤
+      (genCent cfg aC hosts).keep.count 0 := by
+    have e1 : (genCent cfg aC hosts).keep = hosts.map (fun h => keepCode cfg.en h.w h.r) := rfl
+    have e2 : (genCent cfg aC (hosts.map fun x => { x with w := f x })).keep =
+        hosts.map (fun h => keepCode cfg.en (f h) h.r) := by
+      simp [genCent, List.map_map, Function.comp]
+    rw [e1, e2, List.count_eq_countP, List.countP_map, List.countP_eq_length_filter,
+      List.count_eq_countP, List.countP_map, List.countP_eq_length_filter]
+    apply List.Sublist.length_le
+    apply filter_sublist_filter_of_imp
+    intro x hx h0
+    simp only [Function.comp, beq_iff_eq] at h0 ⊢
+    by_contra hne
+    exact (hnest x hx hne).1 h0
+  refine ⟨?_, hcount, ?_, ?_⟩
+  · apply filter_sublist_filter_of_imp
+    intro x hx hs
+    simp only [decide_eq_true_eq] at hs ⊢
+    exact (hnest x hx hs).1
+  · have h1 := (at_most_one cfg.en ⟨0, 0, 0⟩ 0).2.1 cfg aC hosts
+    have h2 := (at_most_one cfg.en ⟨0, 0, 0⟩ 0).2.1 cfg aC (hosts.map fun x => { x with w := f x })
+    rw [List.length_map] at h2
+    omega
+  · rw [genCent_gals, genCent_gals, List.filter_map, List.map_map, List.map_map, List.map_map]
+    have e1 : (hosts.filter (fun h => decide (keepCode cfg.en h.w h.r = Tracer.LRG.code))).map
+        ((fun g : Gal => g.id) ∘ mkCent cfg (aC.get .LRG)) =
+        (hosts.filter (fun h => decide (keepCode cfg.en h.w h.r = Tracer.LRG.code))).map (·.id) :=
+      List.map_congr_left (fun _ _ => rfl)
+    have e2 : (hosts.filter ((fun h : Host => decide (keepCode cfg.en h.w h.r = Tracer.LRG.code)) ∘
+          fun x => { x with w := f x })).map
+        (((fun g : Gal => g.id) ∘ mkCent cfg (aC.get .LRG)) ∘ fun x => { x with w := f x }) =
+        (hosts.filter (fun h => decide (keepCode cfg.en (f h) h.r = Tracer.LRG.code))).map (·.id) :=
+      List.map_congr_left (fun _ _ => rfl)
+    rw [e1, e2]
+    apply List.Sublist.map
+    apply filter_sublist_filter_of_imp
+    intro x hx hs
+    have hs1 : keepCode cfg.en x.w x.r = 1 := of_decide_eq_true hs
+    have := hnest x hx (by omega)
+    have h1 : keepCode cfg.en (f x) x.r = 1 := by omega
+    exact decide_eq_true h1
+
+-- ic_LRG doubled (LRG width 1/4 -> 1/2): the host with r = 3/8 moves from ELG to LRG, nobody is lost
+example : ((genCent ⟨⟨true, true, false⟩, false, none, 1/2, 100⟩ ⟨0, 0, 0⟩
+      [⟨7, 10, ⟨1, 2, 3⟩, ⟨10, 20, 30⟩, ⟨4, 8, 12⟩, 3/8, ⟨1/4, 1/4, 0⟩, 0⟩]).keep = [2]) ∧
+    ((genCent ⟨⟨true, true, false⟩, false, none, 1/2, 100⟩ ⟨0, 0, 0⟩
+      [⟨7, 10, ⟨1, 2, 3⟩, ⟨10, 20, 30⟩, ⟨4, 8, 12⟩, 3/8, ⟨1/2, 1/4, 0⟩, 0⟩]).keep = [1]) := by
+  constructor <;> decide +kernel
+
+/-- The nesting does NOT extend to satellites end to end when ELG conformity is in use: raising the LRG
+width turns the host's central from ELG (code 2, satellite ELG width `wE2`) into LRG (code 1, width `wE1`),
+and a satellite selected with `wE2 = 1/2` is lost with `wE1 = 1/8`.  (For a fixed `keep_cent` the satellite
+pass is nested by `nested_in_ic` row by row.) -/
+theorem nested_in_ic_not_through_conformity :
+    ∃ (cfg : Cfg) (aC aS : Tri Rat) (h h' : Host) (p : Part) (o o' : CatOut),
+      (∀ S, h.w.get S ≤ h'.w.get S) ∧
+      genGalCat cfg aC aS [h] [p] = .ok o ∧ genGalCat cfg aC aS [h'] [p] = .ok o' ∧
+      o.keepSat = [2] ∧ o'.keepSat = [0] := by
+  refine ⟨⟨⟨true, true, false⟩, false, none, 1/2, 100⟩, ⟨0, 0, 0⟩, ⟨1, 1, 1⟩,
+    ⟨7, 10, ⟨1, 2, 3⟩, ⟨10, 20, 30⟩, ⟨4, 8, 12⟩, 3/8, ⟨1/4, 1/4, 0⟩, 0⟩,
+    ⟨7, 10, ⟨1, 2, 3⟩, ⟨10, 20, 30⟩, ⟨4, 8, 12⟩, 3/8, ⟨1/2, 1/4, 0⟩, 0⟩,
+    ⟨7, 10, ⟨5, 6, 7⟩, ⟨1, 1, 1⟩, ⟨10, 20, 30⟩, 1/2, 0, 1/4, 1/8, 1/2, 0, 0, 0⟩, _, _, ?_, rfl, rfl, ?_, ?_⟩
+  · intro S; cases S <;> decide +kernel
+  · decide +kernel
+  · decide +kernel
+
 /-! ## later tracers are irrelevant, disabled tracers capture nothing -/
 
 /-- **later_tracer_irrelevant.**  Whether a host yields a `T`-galaxy depends only on the enabled flags
@@ -236,6 +322,99 @@ example : ((genCent ⟨⟨true, true, true⟩, false, none, 1/2, 100⟩ ⟨0, 0,
       [⟨7, 10, ⟨1, 2, 3⟩, ⟨10, 20, 30⟩, ⟨4, 8, 12⟩, 1/4, ⟨1/4, 1/4, 5⟩, 0⟩,
        ⟨9, 11, ⟨1, 2, 3⟩, ⟨10, 20, 30⟩, ⟨4, 8, 12⟩, 3/8, ⟨1/4, 1/4, 5⟩, 0⟩]).gals .ELG).map (·.id) = [9] := by
   decide +kernel
+
+/-- **later_tracer_irrelevant (end to end through `gen_gals`).**  Two complete runs on the same halo and
+particle tables that differ only in tracers after `T` — their enable flags, the hosts' widths and the
+particles' widths (for `T = LRG` also every ELG variant, for `T = ELG` the QSO width) — succeed together and
+produce the same `T` catalogue: same `Ncent`, same centrals, same satellites.  The conformity switch reads the
+central keep code of the particle's host, which may differ between the runs (0 vs 3), but only through the
+tests `== 1` and `== 2`, whose outcome is fixed by the tracers up to ELG. -/
+theorem later_tracer_irrelevant_genGalCat (T : Tracer) (cfg : Cfg) (en' : Enabled) (aC aS : Tri Rat)
+    (hosts : List Host) (parts : List Part) (f : Host → Widths) (u : Part → Part)
+    (hen : flagsAgree T cfg.en en')
+    (hh : ∀ x ∈ hosts, ∀ S : Tracer, S.rank ≤ T.rank → x.w.get S = (f x).get S)
+    (hp : ∀ p ∈ parts, partAgree T p (u p))
+    (o : CatOut) (ho : genGalCat cfg aC aS hosts parts = .ok o) :
+    ∃ o', genGalCat { cfg with en := en' } aC aS (hosts.map fun x => { x with w := f x }) (parts.map u) = .ok o' ∧
+      o'.cat T = o.cat T := by
+  have hag : ∀ x ∈ hosts, agreeUpTo T cfg.en en' x.w (f x) := fun x hx S hS => ⟨hen S hS, hh x hx S hS⟩
+  -- the first run
+  unfold genGalCat at ho
+  simp only [bind, Except.bind, pure, Except.pure] at ho
+  split at ho
+  · cases ho
+  · rename_i kcs hk
+    cases ho
+    -- keep arrays of the two runs, row by row over the same host table
+    have hkeep : (genCent cfg aC hosts).keep = hosts.map (fun h => keepCode cfg.en h.w h.r) := rfl
+    have hkeep' : (genCent { cfg with en := en' } aC (hosts.map fun x => { x with w := f x })).keep =
+        hosts.map (fun h => keepCode en' (f h) h.r) := by
+      simp [genCent, List.map_map, Function.comp]
+    have hpinds : (parts.map u).map (·.kc) = parts.map (·.kc) := by
+      rw [List.map_map]
+      apply List.map_congr_left
+      intro p hpm
+      exact (hp p hpm).2.2.2.2.2.2.2.1
+    rw [hkeep] at hk
+    obtain ⟨kcs', hk', hrel⟩ := gatherKeep_map_rel hosts (fun h => keepCode cfg.en h.w h.r)
+      (fun h => keepCode en' (f h) h.r) (confRel T) (by
+        intro x hx h1
+        have hL := later_tracer_irrelevant .LRG cfg.en en' x.w (f x) x.r
+          (agreeUpTo_mono (by simp [Tracer.rank]) (hag x hx))
+        have hE := later_tracer_irrelevant .ELG cfg.en en' x.w (f x) x.r
+          (agreeUpTo_mono (by simpa [Tracer.rank] using h1) (hag x hx))
+        simp only [Tracer.code] at hL hE
+        constructor
+        · constructor <;> intro h <;> [have := hL.1 (by exact_mod_cast h); have := hL.2 (by exact_mod_cast h)] <;>
+            exact_mod_cast this
+        · constructor <;> intro h <;> [have := hE.1 (by exact_mod_cast h); have := hE.2 (by exact_mod_cast h)] <;>
+            exact_mod_cast this) (parts.map (·.kc)) kcs hk
+    have hlen : kcs.length = parts.length := by
+      have := gatherKeep_length hk; simpa using this
+    -- the second run
+    have hrun : genGalCat { cfg with en := en' } aC aS (hosts.map fun x => { x with w := f x }) (parts.map u) =
+        .ok { keepCent := (genCent { cfg with en := en' } aC (hosts.map fun x => { x with w := f x })).keep
+              keepSat := (genSats { cfg with en := en' } aS ((parts.map u).zip kcs')).keep
+              cat := fun T => if en'.get T then
+                  some { ncent := ((genCent { cfg with en := en' } aC (hosts.map fun x => { x with w := f x })).gals T).length
+                         gals := (genCent { cfg with en := en' } aC (hosts.map fun x => { x with w := f x })).gals T ++
+                                   (genSats { cfg with en := en' } aS ((parts.map u).zip kcs')).gals T }
+                else none } := by
+      unfold genGalCat
+      simp only [bind, Except.bind, pure, Except.pure]
+      rw [hpinds]
+      have hk'' : gatherKeep (genCent { cfg with en := en' } aC (hosts.map fun x => { x with w := f x })).keep
+          (parts.map (·.kc)) = .ok kcs' := by rw [hkeep']; exact hk'
+      rw [hk'']
+    refine ⟨_, hrun, ?_⟩
+    · -- same T catalogue
+      have hflag : en'.get T = cfg.en.get T := (hen T (Nat.le_refl _)).symm
+      have hc := later_tracer_irrelevant_catalogue T cfg en' aC hosts f hag
+      have hs : (genSats { cfg with en := en' } aS ((parts.map u).zip kcs')).gals T =
+          (genSats cfg aS (parts.zip kcs)).gals T := by
+        symm
+        apply genSats_gals_congr
+        apply forall₂_zip_map _ u (confRel T) parts kcs kcs' hlen hrel
+        intro p hpm k k' hkk
+        have hpa := hp p hpm
+        refine ⟨?_, mkSat_agree cfg en' _ hpa⟩
+        have hr : (u p).r = p.r := hpa.2.2.2.2.2.1
+        show keepCode cfg.en (satWidths p k) p.r = T.code ↔ keepCode en' (satWidths (u p) k') (u p).r = T.code
+        rw [hr]
+        exact later_tracer_irrelevant T cfg.en en' _ _ p.r (satWidths_agree hen hpa hkk)
+      simp only [hflag, hc, hs]
+
+-- QSO switched on (width 5 everywhere) changes the host's central code from 0 to 3; the ELG satellite on
+-- that host keeps its default width and stays selected; the ELG catalogue is unchanged
+example : (∃ o, genGalCat ⟨⟨true, true, false⟩, false, none, 1/2, 100⟩ ⟨0, 0, 0⟩ ⟨1, 1, 1⟩
+      [⟨7, 10, ⟨1, 2, 3⟩, ⟨10, 20, 30⟩, ⟨4, 8, 12⟩, 3/4, ⟨1/4, 1/4, 0⟩, 0⟩]
+      [⟨7, 10, ⟨5, 6, 7⟩, ⟨1, 1, 1⟩, ⟨10, 20, 30⟩, 1/4, 0, 1/2, 0, 0, 0, 0, 0⟩] = .ok o ∧
+      o.keepCent = [0] ∧ (o.cat .ELG).map (fun t => t.gals.map (·.id)) = some [7]) ∧
+    (∃ o, genGalCat ⟨⟨true, true, true⟩, false, none, 1/2, 100⟩ ⟨0, 0, 0⟩ ⟨1, 1, 1⟩
+      [⟨7, 10, ⟨1, 2, 3⟩, ⟨10, 20, 30⟩, ⟨4, 8, 12⟩, 3/4, ⟨1/4, 1/4, 5⟩, 0⟩]
+      [⟨7, 10, ⟨5, 6, 7⟩, ⟨1, 1, 1⟩, ⟨10, 20, 30⟩, 1/4, 0, 1/2, 0, 0, 5, 0, 0⟩] = .ok o ∧
+      o.keepCent = [3] ∧ (o.cat .ELG).map (fun t => t.gals.map (·.id)) = some [7]) := by
+  constructor <;> refine ⟨_, rfl, ?_, ?_⟩ <;> decide +kernel
 
 /-- **disabled_tracer_captures_nothing.**  A tracer that is not enabled never gets a host, whatever
 the random number (including 0) and whatever width is associated with it; its catalogue is empty and
@@ -464,5 +643,117 @@ example : ∃ o, genGalCat ⟨⟨true, false, false⟩, false, none, 1/2, 100⟩
       [⟨7, 10, ⟨5, 6, 7⟩, ⟨1, 1, 1⟩, ⟨10, 20, 30⟩, 1/4, 1/2, 0, 0, 0, 0, 0, 0⟩] = .ok o ∧
     (o.cat .LRG).map (·.ncent) = some 1 ∧ (o.cat .LRG).map (fun t => t.gals.map (·.id)) = some [7, 7] := by
   refine ⟨_, rfl, ?_, ?_⟩ <;> decide +kernel
+
+/-! ## NFW satellites (`nfw=True`)
+
+The threshold rule does not apply to this path (Poisson counts from a global generator, see the header of
+`Model/C09.lean`); inheritance of id / mass, the ordering and `Ncent` do, and the RSD of that branch is a
+different formula. -/
+
+/-- **nfw_inherits_host.**  Whatever counts, positions and velocities were drawn: every NFW satellite is
+`mkNfw` of a host row and one of its draws and carries that host's id and mass (velocity = the drawn one); the
+id and mass columns are the host columns repeated by the per-host counts, in host order; the number of
+satellites is the sum of the counts. -/
+theorem nfw_inherits_host (cfg : Cfg) (rows : List (Host × List Draw)) :
+    (∀ g ∈ genSatsNfw cfg rows, ∃ hd ∈ rows, ∃ d ∈ hd.2,
+        g = mkNfw cfg hd.1 d ∧ g.id = hd.1.id ∧ g.mass = hd.1.mass ∧ g.vel = d.vel) ∧
+    (genSatsNfw cfg rows).map (·.id) = rows.flatMap (fun hd => List.replicate hd.2.length hd.1.id) ∧
+    (genSatsNfw cfg rows).map (·.mass) = rows.flatMap (fun hd => List.replicate hd.2.length hd.1.mass) ∧
+    (genSatsNfw cfg rows).length = (rows.map (·.2.length)).sum := by
+  refine ⟨?_, ?_, ?_, ?_⟩
+  · intro g hg
+    simp only [genSatsNfw, List.mem_flatMap, List.mem_map] at hg
+    obtain ⟨hd, hm, d, hdm, rfl⟩ := hg
+    exact ⟨hd, hm, d, hdm, rfl, rfl, rfl, rfl⟩
+  · have hrep : ∀ (h : Host) (l : List Draw),
+        (l.map (mkNfw cfg h)).map (·.id) = List.replicate l.length h.id := by
+      intro h l
+      induction l with
+      | nil => rfl
+      | cons d ds ih => simp only [List.map_cons, List.length_cons, List.replicate_succ, ih]; rfl
+    induction rows with
+    | nil => rfl
+    | cons hd tl ih =>
+      simp only [genSatsNfw, List.flatMap_cons, List.map_append] at ih ⊢
+      rw [ih, hrep]
+  · have hrep : ∀ (h : Host) (l : List Draw),
+        (l.map (mkNfw cfg h)).map (·.mass) = List.replicate l.length h.mass := by
+      intro h l
+      induction l with
+      | nil => rfl
+      | cons d ds ih => simp only [List.map_cons, List.length_cons, List.replicate_succ, ih]; rfl
+    induction rows with
+    | nil => rfl
+    | cons hd tl ih =>
+      simp only [genSatsNfw, List.flatMap_cons, List.map_append] at ih ⊢
+      rw [ih, hrep]
+  · induction rows with
+    | nil => rfl
+    | cons hd tl ih =>
+      simp only [genSatsNfw, List.flatMap_cons, List.length_append, List.length_map, List.map_cons,
+        List.sum_cons] at ih ⊢
+      rw [ih]
+
+example : (genSatsNfw ⟨⟨true, true, true⟩, false, none, 1/2, 100⟩
+    [(⟨7, 10, ⟨1, 2, 3⟩, ⟨10, 20, 30⟩, ⟨4, 8, 12⟩, 0, ⟨1, 0, 0⟩, 0⟩, [⟨⟨1, 1, 1⟩, ⟨2, 2, 2⟩⟩, ⟨⟨3, 3, 3⟩, ⟨4, 4, 4⟩⟩]),
+     (⟨8, 11, ⟨1, 2, 3⟩, ⟨10, 20, 30⟩, ⟨4, 8, 12⟩, 0, ⟨1, 0, 0⟩, 0⟩, []),
+     (⟨9, 12, ⟨1, 2, 3⟩, ⟨10, 20, 30⟩, ⟨4, 8, 12⟩, 0, ⟨1, 0, 0⟩, 0⟩, [⟨⟨5, 5, 5⟩, ⟨6, 6, 6⟩⟩])]).map (·.id) = [7, 7, 9] := by
+  decide +kernel
+
+/-- **nfw_rsd.**  The RSD of the NFW branch: only `z` changes, `z' = z + v_z·inv − k·L` for an integer `k`,
+and (for `L > 0`) `z' ∈ [0, L)` — the range of Python's `%`, whatever the input. -/
+theorem nfw_rsd (cfg : Cfg) (h : Host) (d : Draw) (hr : cfg.rsd = true) (hL : 0 < cfg.lbox) :
+    (mkNfw cfg h d).pos.x = d.pos.x ∧ (mkNfw cfg h d).pos.y = d.pos.y ∧
+    (∃ k : Int, (mkNfw cfg h d).pos.z = d.pos.z + d.vel.z * cfg.inv - k * cfg.lbox) ∧
+    0 ≤ (mkNfw cfg h d).pos.z ∧ (mkNfw cfg h d).pos.z < cfg.lbox := by
+  have e : (mkNfw cfg h d).pos = ⟨d.pos.x, d.pos.y, pyMod (d.pos.z + d.vel.z * cfg.inv) cfg.lbox⟩ := by
+    simp [mkNfw, hr]
+  rw [e]
+  generalize d.pos.z + d.vel.z * cfg.inv = x
+  generalize cfg.lbox = L at hL
+  have hfl : (x / L).floor = ⌊x / L⌋ := rfl
+  have h1 := Int.floor_le (x / L)
+  have h2 := Int.lt_floor_add_one (x / L)
+  have hx : L * (x / L) = x := by rw [mul_comm]; exact div_mul_cancel₀ x (ne_of_gt hL)
+  have h1' := mul_le_mul_of_nonneg_left h1 (le_of_lt hL)
+  have h2' := mul_lt_mul_of_pos_left h2 hL
+  rw [hx] at h1' h2'
+  refine ⟨rfl, rfl, ⟨⌊x / L⌋, ?_⟩, ?_, ?_⟩
+  · simp only [pyMod, hfl]; ring
+  · simp only [pyMod, hfl]; linarith
+  · simp only [pyMod, hfl]; linarith
+
+/-- **nfw_rsd_leaves_the_box.**  The NFW branch does not satisfy the property's range clause: a satellite at
+`z = −10` in a box `[−50, 50)` with zero line-of-sight velocity (single-wrap precondition trivially met) ends
+at `z' = 90`, outside `[−L/2, L/2)`, whereas `wrap` (centrals, particle satellites) leaves it at `−10`. -/
+theorem nfw_rsd_leaves_the_box :
+    ∃ (cfg : Cfg) (h : Host) (d : Draw), cfg.rsd = true ∧ cfg.origin = none ∧ 0 < cfg.lbox ∧
+      -(cfg.lbox / 2) ≤ d.pos.z ∧ d.pos.z < cfg.lbox / 2 ∧ |d.vel.z * cfg.inv| ≤ cfg.lbox ∧
+      ¬ ((mkNfw cfg h d).pos.z < cfg.lbox / 2) ∧
+      (applyRsd cfg 0 d.pos d.vel).z = d.pos.z := by
+  refine ⟨⟨⟨true, true, true⟩, true, none, 1/2, 100⟩,
+    ⟨7, 10, ⟨1, 2, 3⟩, ⟨10, 20, 30⟩, ⟨4, 8, 12⟩, 0, ⟨1, 0, 0⟩, 0⟩, ⟨⟨1, 2, -10⟩, ⟨5, 5, 0⟩⟩,
+    rfl, rfl, ?_, ?_, ?_, ?_, ?_, ?_⟩ <;> decide +kernel
+
+/-- **nfw_order_and_ncent.**  With NFW satellites the catalogue of an enabled tracer is still the centrals of
+`gen_cent` followed by the satellites, `Ncent` = number of centrals; a tracer that is not enabled is absent. -/
+theorem nfw_order_and_ncent (cfg : Cfg) (aC : Tri Rat) (hosts : List Host) (draws : Tracer → List (List Draw))
+    (T : Tracer) :
+    (cfg.en.get T = false → genGalCatNfw cfg aC hosts draws T = none) ∧
+    (cfg.en.get T = true → ∃ t, genGalCatNfw cfg aC hosts draws T = some t ∧
+      t.ncent = ((genCent cfg aC hosts).gals T).length ∧
+      t.gals.take t.ncent = (genCent cfg aC hosts).gals T ∧
+      t.gals.drop t.ncent = genSatsNfw cfg (hosts.zip (draws T))) := by
+  constructor
+  · intro h; simp [genGalCatNfw, h]
+  · intro h
+    exact ⟨⟨((genCent cfg aC hosts).gals T).length,
+        (genCent cfg aC hosts).gals T ++ genSatsNfw cfg (hosts.zip (draws T))⟩,
+      by simp [genGalCatNfw, h], rfl, by simp, by simp⟩
+
+example : (genGalCatNfw ⟨⟨true, false, false⟩, false, none, 1/2, 100⟩ ⟨0, 0, 0⟩
+    [⟨7, 10, ⟨1, 2, 3⟩, ⟨10, 20, 30⟩, ⟨4, 8, 12⟩, 0, ⟨1, 0, 0⟩, 0⟩]
+    (fun _ => [[⟨⟨1, 1, 1⟩, ⟨2, 2, 2⟩⟩, ⟨⟨3, 3, 3⟩, ⟨4, 4, 4⟩⟩]]) .LRG).map (fun t => (t.ncent, t.gals.map (·.id))) =
+    some (1, [7, 7, 7]) := by decide +kernel
 
 end AbacusVerif.Hod
